@@ -6,6 +6,9 @@ namespace Mingus
 
 abbrev Str := List Char
 
+/-- string literal as a character list -/
+abbrev lit (x : String) : Str := x.toList
+
 /-- Error classes (Python exception classes, canonicalised). -/
 inductive Err
   | noteFormat | range | format | key | index | type | value | attr
